@@ -15,6 +15,7 @@ def parseSvcB (s : String) : Option Svc :=
   if s == "h" then some .hang
   else if s.startsWith "a" then (s.drop 1).toString.toNat?.map .answer
   else if s.startsWith "f" then (s.drop 1).toString.toNat?.map .fail
+  else if s.startsWith "t" then (s.drop 1).toString.toNat?.map .failCtx
   else none
 
 def optOfInt (i : Int) : Option Nat := if i < 0 then none else some i.toNat
